@@ -106,6 +106,9 @@ class Quoter:
 
     def in_slashes(self, val: str) -> bool:
         val = val.strip()
+        if val.endswith("/i"):
+            # case-insensitive regular expression e.g. /^ab.c/i
+            val = val[:-1]
         # a single "/" is a string, not an (empty) regular expression
         return len(val) > 1 and self._in_quotes(val, "/")
 
